@@ -19,7 +19,8 @@
 (* to break a property (recorded in known_findings.json with a kit         *)
 (* description each) are not generated again under fresh names:            *)
 (*   Dev_NoElementSize, Dev_NoCustom, Dev_NoCount64 (rust count*width      *)
-(*   overflow).                                                            *)
+(*   overflow), Dev_NoOddWidthArrays (rust writes 24/40/48/56-bit array    *)
+(*   elements without a range check).                                      *)
 (***************************************************************************)
 EXTENDS PdlGen, FiniteSets, SequencesExt
 
@@ -52,7 +53,7 @@ EnumPalette ==
     MkEnum("Ei", 12, <<MkRange("R", L(0), L(4095))>>) }
 
 ScalarWidths == {1, 2, 3, 4, 5, 6, 7, 8, 9, 12, 15, 16, 17, 24, 31, 32, 33, 40, 48, 56, 63, 64}
-ElemWidths == {8, 16, 24, 32, 64}
+ElemWidths == {8, 16, 32, 64}                \* Dev_NoOddWidthArrays: 24/40/48/56-bit scalar elements are kit-only
 ExtentWidths == {2, 4, 8, 12, 16}            \* Dev_NoCount64: wide count fields are kit-only
 PadOctets == {4, 8, 9}
 StaticCounts == {0, 1, 2, 3}
